@@ -96,16 +96,26 @@ theorem periodic_eq_inrange (xs ys ks : List F) (q : F) (h0 : 0 < xs.length)
     rw [List.getD_eq_getElem?_getD, List.getElem?_eq_getElem hlast]; rfl
   unfold splineInterp
   rw [isInRange_eq xs q h0, isInRange_eq xs (wrapPoint xs q) h0]
+  have hev : ∀ x, splineEvalAt (V := F) (splineOf xs ys ks .periodic) xs ys x =
+      splineEvalAt (V := F) (splineOf xs ys ks .no) xs ys x := fun x => rfl
   by_cases hin : InRange xs q
   · have : wrapPoint xs q = q := by simp [wrapPoint, hin]
-    simp [this, hin, splineOf, bind, Except.bind, pure, Except.pure]
+    have w1 : splineWrap Extrapolate.periodic true xs q = .ok q := by simp [splineWrap]; rfl
+    have w2 : splineWrap Extrapolate.no true xs q = .ok q := by simp [splineWrap]; rfl
+    simp only [this, hin, decide_true, splineOf, bind, Except.bind, pure, Except.pure, extr_beq,
+      decide_false, Bool.not_true, Bool.and_false, Bool.false_eq_true, if_false, w1, w2]
+    exact hev q
   · have hwp : wrapPoint xs q = RemEuclid.remEuclid (q - xs[0]) (xs[xs.length - 1] - xs[0]) + xs[0] := by
       unfold wrapPoint; rw [if_neg hin, g0, gl]
-    rw [hwp] at hw
-    simp only [hw, hin, splineOf, bind, Except.bind, pure, Except.pure, extr_beq, decide_true,
-      decide_false, decide_not, Bool.not_false, Bool.and_true, Bool.not_true, Bool.and_false,
-      Bool.false_eq_true, if_false, if_true, rd_eq xs 0 h0, rd_eq xs (xs.length - 1) hlast, hwp]
-    simp
+    have w1 : splineWrap Extrapolate.periodic false xs q = .ok (wrapPoint xs q) := by
+      simp only [splineWrap, extr_beq, decide_true, Bool.not_false, Bool.and_self, if_true, bind,
+        Except.bind, rd_eq xs 0 h0, rd_eq xs (xs.length - 1) hlast, pure, Except.pure, hwp]
+    have w2 : splineWrap Extrapolate.no true xs (wrapPoint xs q) = .ok (wrapPoint xs q) := by
+      simp [splineWrap]; rfl
+    simp only [hw, hin, decide_true, decide_false, splineOf, bind, Except.bind, pure, Except.pure,
+      extr_beq, Bool.not_true, Bool.not_false, Bool.and_false, Bool.and_true, Bool.false_eq_true,
+      if_false, w1, w2]
+    exact hev _
 
 /-- the wrapped point lies in `[x₀, x_{n-1})` and differs from `q` by an integer number of periods -/
 theorem wrapPoint_spec (xs : List F) (q : F) (hs : StrictInc xs) (hout : ¬ InRange xs q) :
